@@ -8,5 +8,6 @@ CONSTANTS
   TD <- ToDec
   NT <- NumText
   NTL <- NumTextLoc
-INVARIANTS LawBytesRoundTrip LawBytesLayout LawSwap
+  CV <- Convert
+INVARIANTS LawBytesRoundTrip LawBytesLayout LawSwap LawConvert
 CHECK_DEADLOCK FALSE
